@@ -41,7 +41,7 @@ impl Check for C04 {
     fn runs(&self, tier: Tier) -> u64 {
         match tier {
             Tier::Quick => 2400,
-            Tier::Thorough => 24000,
+            Tier::Thorough => 12000,
         }
     }
     fn generate(&self, rng: &mut Prng, tier: Tier, idx: u64) -> Value {
